@@ -55,9 +55,14 @@ template <class T> static void run_T(Choice &c, Ctx &cx)
     apply_tuning(o.tune);
     apply_opts(o, e.so);
     if (o.colperm == MY_PERMC) e.perm_c = o.my_perm_c;
+    // a quarter of the cases factor inside a generous caller workspace (base 0 or 4 mod 8): everything the driver does after the
+    // factorization - solve, refinement, estimates, unscaling - must be indifferent to where the factors live
+    std::vector<char> wsbuf;
+    if (((cx.hash >> 9) & 3) == 0) { wsbuf.assign(((size_t)2 << 20) + 8, (char)0x5A); e.work = wsbuf.data() + (((cx.hash >> 11) & 1) ? 4 : 0); e.lwork = (int_t)2 << 20; cx.label("caller-workspace"); }
     e.bind();
     if (e.call()) { cx.fail("abort", fmt("gssvx: library called ABORT: %s", vf_abort_msg())); vf_purge(); return; }
     long long info = (long long)e.info;
+    if (e.lwork > 0 && e.info > n + 1) { e.lu_live = false; e.teardown(); vf_purge(); cx.skip("the 2 MB caller workspace did not suffice (shortages are judged by C08)"); return; }
     if (info < 0 || info > n + 1 || (info == n + 1 && !o.condnum)) { e.lu_live = false; e.teardown(); vf_purge(); VF_FAIL(cx, "info", "valid call returned info=%lld (n=%d, ConditionNumber=%d)", info, n, (int)o.condnum); }
     auto bail = [&] { e.teardown(); vf_purge(); };
     if (!bytes_equal(e.S.idx, idx0) || !bytes_equal(e.S.ptr, ptr0)) { bail(); VF_FAIL(cx, "index-arrays-modified", "the caller's index/pointer arrays were modified"); }
